@@ -304,9 +304,13 @@ pub fn bin_expect(base: &Base, coltype: u8, unsigned: bool) -> BinExpect {
                 BinExpect::Refuse
             }
         }
-        (Sem::DateTime(..), _) => {
+        (Sem::DateTime(y, m, d, h, mi, s, us), b) => {
             if coltype == T_DATETIME || coltype == T_TIMESTAMP {
                 BinExpect::Accept(sem)
+            } else if coltype == T_DATE && matches!(b, Base::My(MyVal::Date(..))) && (*h, *mi, *s, *us) == (0, 0, 0, 0) {
+                // a generic date value without a time of day is a calendar date: a DATE column can
+                // carry it (exactly), the pinned encoder happens to refuse it
+                BinExpect::AcceptOrRefuse(Sem::Date(*y, *m, *d))
             } else {
                 BinExpect::Refuse
             }
